@@ -74,7 +74,7 @@ def random_case(rng, tier):
     schedule = common.gen_schedule(rng, kinds, max_actions, ticks, notify, p_listener=0.12 if rng.random() < 0.5 else 0.0,
                                    must=['pause', 'play'])
     for action in schedule:
-        if 'on' in action and (action['act'] != 'pause' or action['on'][0] in ('paused', 'played')):
+        if 'on' in action and (action['act'] != 'pause' or action['on'][0] == 'played'):
             # only pause requests are also issued from inside listener notifications of state transitions; play and resume
             # stay between loop callbacks, as the property quantifies (a pause issued from inside the 'played' notification
             # legitimately leaves play() returning on a paused process)
